@@ -10,11 +10,12 @@ Proof.
   destruct (f y) eqn:E; cbn in H; [|discriminate]. destruct Hin as [<-|Hin]; auto.
 Qed.
 
-Lemma flat_map_nil {A B} (f : A -> list B) l : flat_map f l = [] -> forall x, In x l -> f x = [].
-Proof.
-  induction l as [|y r IH]; cbn; intros H x Hin; [contradiction|].
-  apply app_eq_nil in H. destruct H as [H1 H2]. destruct Hin as [<-|Hin]; auto.
-Qed.
+Lemma in_flat_pairs {A B} (l : list (A * list B)) a t x :
+  In (a, t) l -> In x t -> In (a, x) (flat_map (fun e => map (fun x => (fst e, x)) (snd e)) l).
+Proof. intros H1 H2. apply in_flat_map. exists (a, t). split; auto. cbn. apply in_map; auto. Qed.
+
+Lemma In_all_types t : (t < 65536)%N -> In t all_types.
+Proof. intros H. unfold all_types. apply In_upto; exact H. Qed.
 
 Lemma optN_eqb_eq a b : optN_eqb a b = true -> a = Some b.
 Proof. destruct a; cbn; [|discriminate]. intros H. apply N.eqb_eq in H. congruence. Qed.
